@@ -214,9 +214,13 @@ func checkC16(c *Check) {
 						continue
 					}
 					if cl, ok := g.V.(*ssa.Call); ok {
-						if sc := staticCallee(cl.Common()); sc != nil && sc.String() == "(time.Time).Before" && g.Pos {
+						if sc := staticCallee(cl.Common()); sc != nil && (sc.String() == "(time.Time).Before" || sc.String() == "(time.Time).After") && g.Pos {
+							// age.Before(cut), or the same strict order written cut.After(age)
 							x := g.R.Of(cl.Call.Args[0])
 							y := g.R.Of(cl.Call.Args[1])
+							if sc.Name() == "After" {
+								x, y = y, x
+							}
 							cut := y.K == "param" && typeName(y.V.Type()) == "time.Time"
 							age := false
 							if isSess {
@@ -294,42 +298,98 @@ func tickerWiring(c *Check, t *Tracker) {
 	}
 	c.Fn(funcDisplayName(read))
 	r := NewResolver(p)
-	// the calls of the two sweeps
-	var calls []*ssa.Call
-	allInstrs(read, func(in ssa.Instruction) {
-		cl, ok := in.(*ssa.Call)
-		if !ok {
-			return
+	// the calls of the two sweeps: in the processor's loop function or in a
+	// function of its package that it calls (directly, or through an
+	// interface the tracker implements)
+	isSweep := func(cl *ssa.Call) bool {
+		var cands []*ssa.Function
+		if sc := staticCallee(cl.Common()); sc != nil {
+			cands = []*ssa.Function{sc}
+		} else if cl.Common().IsInvoke() {
+			cands = p.dynCallees(cl)
 		}
-		sc := staticCallee(cl.Common())
-		if sc == nil {
-			return
-		}
-		for _, ep := range t.EPs {
-			if sc == ep && len(ep.Params) == 2 && typeName(ep.Params[1].Type()) == "time.Time" {
-				calls = append(calls, cl)
+		for _, sc := range cands {
+			for _, ep := range t.EPs {
+				if sc == ep && len(ep.Params) == 2 && typeName(ep.Params[1].Type()) == "time.Time" {
+					return true
+				}
 			}
 		}
-	})
-	c.Cond(len(calls) == 2, "ticker-wiring", "both sweeps are called by the processor", p.Pos(read.Pos()), "two sweep calls", fmt.Sprintf("%d sweep call(s) in the processor: a map is never cleaned (or cleaned twice per tick)", len(calls)))
+		return false
+	}
+	type found struct {
+		fn    *ssa.Function
+		chain []ssa.CallInstruction // call sites from Read down to fn
+	}
+	work := []found{{read, nil}}
+	seenFn := map[*ssa.Function]bool{read: true}
+	var calls []*ssa.Call
+	var chain []ssa.CallInstruction
+	holders := 0
+	for len(work) > 0 {
+		f := work[0]
+		work = work[1:]
+		n := 0
+		allInstrs(f.fn, func(in ssa.Instruction) {
+			cl, ok := in.(*ssa.Call)
+			if !ok {
+				return
+			}
+			if isSweep(cl) {
+				calls = append(calls, cl)
+				n++
+				return
+			}
+			sc := staticCallee(cl.Common())
+			if sc != nil && !seenFn[sc] && sc.Blocks != nil && FuncPkgPath(sc) == FuncPkgPath(read) && len(f.chain) < 3 {
+				seenFn[sc] = true
+				work = append(work, found{sc, append(append([]ssa.CallInstruction{}, f.chain...), cl)})
+			}
+		})
+		if n > 0 {
+			holders++
+			chain = f.chain
+		}
+	}
+	c.Cond(len(calls) == 2 && holders == 1, "ticker-wiring", "both sweeps are called by the processor", p.Pos(read.Pos()), "two sweep calls", fmt.Sprintf("%d sweep call(s) in the processor: a map is never cleaned (or cleaned twice per tick)", len(calls)))
 	if len(calls) == 0 {
 		return
 	}
+	// the sweeps' position in the loop function, and the resolver of the
+	// function holding them (its parameters bound along the call chain)
+	var inRead ssa.Instruction = calls[0]
+	for _, site := range chain {
+		r = r.Bind(staticCallee(site.Common()), site)
+	}
+	if len(chain) > 0 {
+		inRead = chain[0]
+		for _, site := range chain {
+			c.Cond(len(GuardsOf(site)) == len(GuardsOf(chain[0])) || site == chain[0], "ticker-wiring", "helper holding the sweeps is called unconditionally: "+calleeName(site.Common()), p.InstrPos(site), "no extra condition", "the sweeps run only under an additional condition")
+		}
+		for _, cl := range calls {
+			c.Cond(len(GuardsOf(cl)) == 0, "ticker-wiring", "sweep call in helper "+cl.Parent().Name(), p.InstrPos(cl), "unconditional in the helper", "a sweep is conditional inside the helper: a map may never be cleaned")
+		}
+	}
 	same := true
 	for _, cl := range calls[1:] {
-		if cl.Call.Args[1] != calls[0].Call.Args[1] || cl.Block() != calls[0].Block() {
+		if cl.Call.Args[len(cl.Call.Args)-1] != calls[0].Call.Args[len(calls[0].Call.Args)-1] || cl.Block() != calls[0].Block() {
 			same = false
 		}
 	}
 	c.Cond(same, "ticker-wiring", "one cut-off value for both sweeps", p.InstrPos(calls[0]), "the same value is passed to both, in the same case", "the two sweeps use different cut-offs (or run in different cases)")
 	// cut-off = time.Now().Add(-1m)
-	co := r.Of(calls[0].Call.Args[1])
+	co := r.Of(calls[0].Call.Args[len(calls[0].Call.Args)-1])
 	okCut := false
 	why := "cut-off is " + trimOrg(co.String())
 	if co.K == "call" && co.Name == "(time.Time).Add" {
 		ac := co.V.(*ssa.Call)
-		base := r.Of(ac.Call.Args[0])
-		d, isK := ac.Call.Args[1].(*ssa.Const)
+		base := callArgOrg(co, 0)
+		dOrg := callArgOrg(co, 1)
+		d, isK := dOrg.V.(*ssa.Const)
+		if dOrg.K != "const" {
+			isK = false
+		}
+		_ = ac
 		if base.K == "call" && base.Name == "time.Now" && isK && d.Value != nil && d.Value.Kind() == constant.Int {
 			if d.Int64() == -oneMinuteNs {
 				okCut = true
@@ -354,7 +414,7 @@ func tickerWiring(c *Check, t *Tracker) {
 				continue
 			}
 			cb := selectCaseBlock(sel, k)
-			if cb == nil || !(cb == calls[0].Block() || cb.Dominates(calls[0].Block())) {
+			if cb == nil || !(cb == inRead.Block() || cb.Dominates(inRead.Block())) {
 				continue
 			}
 			// channel = ticker.C
